@@ -33,7 +33,7 @@ class BlockInfo:
 
 
 def gen_state(r, path, suffix, name_prefix, affects_fn=None, layouts=("own", "own", "own", "multi"), max_blocks=6, eol=None,
-              dup_rate=0.0):
+              dup_rate=0.0, sentinel=False):
     """A file plus per-line identities: returns (FileState, line ids). Every line gets a unique id so that
     the same block can be located in the edited state."""
     lang = langs.SUFFIX_LANG[suffix]
@@ -72,12 +72,38 @@ def gen_state(r, path, suffix, name_prefix, affects_fn=None, layouts=("own", "ow
             tag_lines.add(ln)
         blocks.append(BlockInfo(name=b.name, attrs=dict(b.attrs), depth=b.depth, s1=b.s1, s2=b.s2, e1=b.e1, e2=b.e2,
                                 tag_line=b.line, tag_col=b.col, same_comment=b.same_comment(), uid=i))
+    if sentinel:
+        # a block of its own at the top of the file that always owes a warning-severity line-count diagnostic when it is
+        # validated: a second validator reporting on the same file (its three lines are protected from edits)
+        form = [f for f in langs.LANGS[lang]["forms"] if not f.col0][0]
+        K = len(langs.LANGS[lang]["prologue"])
+        close = (" " + form.close) if form.close else ""
+        sl = [("%s <block name=\"%ssentinel\" line-count=\"<1\" severity=\"warning\">%s" % (form.open, name_prefix, close)).encode(),
+              langs.LANGS[lang]["code"][0].encode(),
+              ("%s </block>%s" % (form.open, close)).encode()]
+        lines[K:K] = sl
+        tag_lines = {ln + 3 if ln > K else ln for ln in tag_lines}
+        for b in blocks:
+            for fld in ("s1", "s2", "e1", "e2", "tag_line"):
+                v = getattr(b, fld)
+                if v > K:
+                    setattr(b, fld, v + 3)
+        shifted_comments = [(c.start_line + (3 if c.start_line > K else 0), c.end_line + (3 if c.end_line > K else 0)) for c in g.fb.comments]
+        sb = BlockInfo(name=name_prefix + "sentinel", attrs={"name": name_prefix + "sentinel", "line-count": "<1", "severity": "warning"},
+                       depth=0, s1=K + 1, s2=K + 1, e1=K + 3, e2=K + 3, tag_line=K + 1, tag_col=len(form.open) + 2, same_comment=False, uid=-1)
+        blocks.insert(0, sb)
+        tag_lines |= {K + 1, K + 3}
+    else:
+        shifted_comments = [(c.start_line, c.end_line) for c in g.fb.comments]
+        K = None
     # every line of a comment (tagged or not) is protected from edits: editing inside a multi-line comment could
     # comment tags in or out, which is a different experiment (C12)
     protected = set(tag_lines)
-    for c in g.fb.comments:
-        for ln in range(c.start_line, c.end_line + 1):
+    for a, z in shifted_comments:
+        for ln in range(a, z + 1):
             protected.add(ln)
+    if sentinel:
+        protected |= {K + 1, K + 2, K + 3}
     L = langs.LANGS[lang]
     for k in range(len(L["prologue"])):
         protected.add(k + 1)          # e.g. `<?php`: deleting it would turn every comment into text
